@@ -314,7 +314,7 @@ func (s *c12Scenario) body(c *mc.Ctx) {
 		if src.kind == "ocsp" {
 			return w.serveOCSP(src, ocspRep(ocspCls[src.cert][src.idx], src))
 		}
-		return w.serveCRL(src, crlByName(crlClassNames[crlCls[src.cert][src.idx]]))
+		return w.serveCRL(src, crlRep(crlCls[src.cert][src.idx], src))
 	}
 	chain := pki.X509s(w.certs)
 	check := newEntry(s.entry, s.purpose, tr)
@@ -518,7 +518,7 @@ func c12Spellings(c *mc.Ctx) {
 		if src.kind == "ocsp" {
 			return w.serveOCSP(src, ocspRep(oc[src.idx], src))
 		}
-		return w.serveCRL(src, crlByName(crlClassNames[cc[src.idx]]))
+		return w.serveCRL(src, crlRep(cc[src.idx], src))
 	}
 	chain := pki.X509s(w.certs)
 	c.Statef("spellings ocsp=%v crl=%v", oc, cc)
